@@ -582,6 +582,12 @@ class SAMIWriter(BaseWriter):
             elif node.type_ == CaptionNode.STYLE:
                 line = self._recreate_line_style(line, node)
 
+        if self.open_span:
+            # a span the caption's nodes never closed must not stay open:
+            # it would leak a closing tag into the next caption or document
+            line = line.rstrip() + '</span>'
+            self.open_span = False
+
         return line.rstrip()
 
     def _recreate_line_style(self, line, node):
